@@ -74,7 +74,7 @@ PROPS = {
     ),
     "C07": dict(
         title="Confirmation: exact payment, within allocation",
-        lean=["LP.Props.C07", "LP.Props.C18reach"],
+        lean=["LP.Props.C07", "LP.Props.C18reach", "LP.Props.C17refund"],
         profiles=[("life", ALL_VARIANTS)],
         R={"st": ({"confirm"}, None), "ev": {"confirm"}, "xf": {"confirm"}},
         D={"addr.conf": {"confirm"}, "bal.pay": {"confirm"}},
@@ -149,7 +149,7 @@ PROPS = {
     ),
     "C17": dict(
         title="Sale terms frozen",
-        lean=["LP.Props.C17", "LP.Props.C13reachV2", "LP.Props.C14feeLp"],
+        lean=["LP.Props.C17", "LP.Props.C13reachV2", "LP.Props.C14feeLp", "LP.Props.C17refund"],
         profiles=[("timeline", ALL_VARIANTS), ("life", ALL_VARIANTS), ("deploy", ALL_VARIANTS), ("vest", ["guarV1", "guarV2"])],
         R={"st": ({"deploy", "setTicketPrice", "setPerTicket", "setNftCost", "setSchedule1", "setSchedule2"}, None)},
         D={"price": ANY, "per": ANY, "cost": ANY, "sched": ANY, "views.C17": ANY},
